@@ -115,6 +115,11 @@ def random_hypervalent(rng):
     LINK = ["C#C", "C=C", "C", "CC", "c1ccc(cc1)", "N", "O", "C(=O)", "C=CC=C"]
     HEAD = ["C", "N#C", "O=C=N", "O", "C=C", "F", "N", "c1ccccc1", "C#C"]
     TAIL = ["C", "C#N", "N=C=O", "O", "C=C", "F", "N", "c1ccccc1", "C#C"]
+    if rng.random() < 0.25:
+        # a carbon core with three or four arms that end in three-coordinate P(V) (metaphosphate / metaphosphonate) or in a
+        # sulfonate: every such phosphorus is a step away from the lowest valences, the right combination is found late
+        arms = [rng.choice(["COP(=O)=O", "COP(=O)=O", "CP(=O)=O", "COS(=O)(=O)C", "CO"]) for _ in range(rng.randint(3, 4))]
+        return "C" + "".join(f"({a})" for a in arms[:-1]) + arms[-1]
     out = rng.choice(HEAD) + rng.choice(G)
     for _ in range(rng.randint(1, 2)):
         out += rng.choice(LINK) + rng.choice(G)
